@@ -157,6 +157,14 @@ def run_impl(case):
     except Exception as e:  # noqa: BLE001
         return {"asm_err": type(e).__name__}
     out = {"text": text, "callable_ctx_ok": all(x is ic for x in ctx_seen), "ncallable_calls": len(ctx_seen)}
+    # the same patch object at a second insertion point: the callables see the second context
+    n1 = len(ctx_seen)
+    ic2 = InsertionContext(m, func, gtirb.CodeBlock(size=8), 4, stack_adjustment=case["adj"])
+    try:
+        text2 = patch.get_asm(ic2)
+        out["second"] = {"same_text": text2 == text, "calls": len(ctx_seen) - n1, "ctx_ok": all(x is ic2 for x in ctx_seen[n1:])}
+    except Exception as e:  # noqa: BLE001
+        out["second"] = {"err": type(e).__name__}
     out["instrs"] = parse_arm64(text) if isa == "ARM64" else parse_x86(text)
     return out
 
@@ -253,6 +261,12 @@ def check_case(ctx, case, pending):
         return
     if not impl["callable_ctx_ok"]:
         ctx.violation("C17:callable-context", "an argument callable did not receive the insertion context", case)
+    sec = impl.get("second") or {}
+    if sec.get("err"):
+        ctx.violation("C17:second-insertion-raises", "the same CallPatch at a second insertion point raised %s" % sec["err"], case)
+    elif sec and (sec["calls"] != impl["ncallable_calls"] or not sec["ctx_ok"] or not sec["same_text"]):
+        ctx.violation("C17:callable-context-second-insertion", "the same CallPatch at a second insertion point: %d callable invocations (first: %d), second context passed: %s, same text: %s"
+                      % (sec["calls"], impl["ncallable_calls"], sec["ctx_ok"], sec["same_text"]), case)
     ncall = sum(1 for a in case["args"] if isinstance(a, dict) and a.get("callable"))
     if impl["ncallable_calls"] != ncall:
         ctx.violation("C17:callable-count", "%d callables, %d invocations" % (ncall, impl["ncallable_calls"]), case)
